@@ -1,0 +1,40 @@
+//! Verification hooks (only compiled with the `verif_hooks` cargo feature).
+//!
+//! Thread-local callbacks that let an external test harness own the schedule of the
+//! follow-mode reader and observe the points where the executors sample the `running` flag.
+//! With the feature off nothing of this exists.
+
+use std::cell::RefCell;
+
+thread_local! {
+    static FOLLOW_IDLE: RefCell<Option<Box<dyn FnMut() -> bool>>> = RefCell::new(None);
+    static PROBE: RefCell<Option<Box<dyn FnMut(&'static str)>>> = RefCell::new(None);
+}
+
+/// Installs (or removes) the callback invoked when `FollowFileIterator` has seen EOF without a complete line.
+/// Returning `true` ends the iteration.
+pub fn set_follow_idle(callback: Option<Box<dyn FnMut() -> bool>>) {
+    FOLLOW_IDLE.with(|cell| *cell.borrow_mut() = callback);
+}
+
+/// Installs (or removes) the callback invoked before each input line is taken by an executor / the joined-file loader.
+pub fn set_probe(callback: Option<Box<dyn FnMut(&'static str)>>) {
+    PROBE.with(|cell| *cell.borrow_mut() = callback);
+}
+
+pub fn follow_idle() -> bool {
+    FOLLOW_IDLE.with(|cell| {
+        match cell.borrow_mut().as_mut() {
+            Some(callback) => callback(),
+            None => false
+        }
+    })
+}
+
+pub fn probe(site: &'static str) {
+    PROBE.with(|cell| {
+        if let Some(callback) = cell.borrow_mut().as_mut() {
+            callback(site);
+        }
+    })
+}
